@@ -15,13 +15,12 @@
 #define SWAP 0      // which side gets which concrete shape
 #endif
 
-template<class V> static void set_len(V &v, int n) { v._M_impl._M_finish = v._M_impl._M_start + n; }
-
 struct Snap {
   int flags, outer, atomic, wrapped, array_size, dtor;
   char name, scoped, truen, comment;        // 0 = empty string, else the single character
   int nctor, ctor[VMAX];
   int nmeth, meth[VMAX];
+  int nelem, elem[VMAX], ncast, cast[VMAX], nseq, seq[VMAX], nnest, nest[VMAX];
   int nder, der_flags[VMAX], der_base[VMAX], der_up[VMAX], der_down[VMAX];
   int nenum, enum_val[VMAX];
   char enum_name[VMAX];
@@ -39,6 +38,17 @@ static char sym_str(std::string &s, bool empty) {
   return c;
 }
 
+static void fill(std::vector<int> &v, int n, int *m) {
+  v.resize(n);
+  for (int i = 0; i < n; i++) { m[i] = nondet_int(); v[i] = m[i]; }
+}
+static bool same(const std::vector<int> &v, int n, const int *m) {
+  if ((int)v.size() != n) return false;
+  bool ok = true;
+  for (int i = 0; i < n; i++) if (v[i] != m[i]) ok = false;
+  return ok;
+}
+
 static InterrogateType *make(Snap &x, int side) {
   InterrogateType *t = new InterrogateType;
   x.flags = nondet_int(); x.outer = nondet_int(); x.atomic = nondet_int(); x.wrapped = nondet_int();
@@ -48,33 +58,31 @@ static InterrogateType *make(Snap &x, int side) {
   t->_array_size = x.array_size; t->_destructor = x.dtor;
   x.name = sym_str(t->_name, false); x.scoped = sym_str(t->_scoped_name, side == 0); x.truen = sym_str(t->_true_name, false);
   x.comment = sym_str(t->_comment, side == 1);
-  x.nctor = side == 0 ? 1 : VMAX;
-  t->_constructors.resize(VMAX);
-  for (int i = 0; i < VMAX; i++) { x.ctor[i] = nondet_int(); t->_constructors[i] = x.ctor[i]; }
-  set_len(t->_constructors, x.nctor);
-  x.nmeth = side == 0 ? VMAX : 0;
-  t->_methods.resize(VMAX);
-  for (int i = 0; i < VMAX; i++) { x.meth[i] = nondet_int(); t->_methods[i] = x.meth[i]; }
-  set_len(t->_methods, x.nmeth);
+  // vector lengths are concrete and only the stored elements are symbolic inputs (an input that influences no
+  // assertion is sliced out of the counterexample trace and would misalign the native replay)
+  x.nctor = side == 0 ? 1 : VMAX;  fill(t->_constructors, x.nctor, x.ctor);
+  x.nmeth = side == 0 ? VMAX : 0;  fill(t->_methods, x.nmeth, x.meth);
+  x.nelem = side == 0 ? 0 : 1;     fill(t->_elements, x.nelem, x.elem);
+  x.ncast = side == 0 ? 1 : 0;     fill(t->_casts, x.ncast, x.cast);
+  x.nseq = side == 0 ? 1 : VMAX;   fill(t->_make_seqs, x.nseq, x.seq);
+  x.nnest = side == 0 ? VMAX : 1;  fill(t->_nested_types, x.nnest, x.nest);
 #ifdef WITH_DERIV
   x.nder = side == 0 ? 0 : 1;
-  t->_derivations.resize(VMAX);
-  for (int i = 0; i < VMAX; i++) {
+  t->_derivations.resize(x.nder);
+  for (int i = 0; i < x.nder; i++) {
     x.der_flags[i] = nondet_int(); x.der_base[i] = nondet_int(); x.der_up[i] = nondet_int(); x.der_down[i] = nondet_int();
     InterrogateType::Derivation &d = t->_derivations[i];
     d._flags = x.der_flags[i]; d._base = x.der_base[i]; d._upcast = x.der_up[i]; d._downcast = x.der_down[i];
   }
-  set_len(t->_derivations, x.nder);
 #endif
 #ifdef WITH_ENUM
   x.nenum = side == 0 ? 1 : 0;
-  t->_enum_values.resize(VMAX);
-  for (int i = 0; i < VMAX; i++) {
+  t->_enum_values.resize(x.nenum);
+  for (int i = 0; i < x.nenum; i++) {
     x.enum_val[i] = nondet_int();
     t->_enum_values[i]._value = x.enum_val[i];
     x.enum_name[i] = sym_str(t->_enum_values[i]._name, false);
   }
-  set_len(t->_enum_values, x.nenum);
 #endif
   x.cpptype = nondet_bool() ? (void *)t : (void *)0;     // two distinguishable pointer values
   t->_cpptype = (CPPType *)x.cpptype;
@@ -93,11 +101,8 @@ static bool has_def(const InterrogateType *r, const Snap &x) {
             r->_wrapped_type == x.wrapped && r->_array_size == x.array_size && r->_destructor == x.dtor &&
             str_is(r->_name, x.name) && str_is(r->_scoped_name, x.scoped) && str_is(r->_true_name, x.truen) && str_is(r->_comment, x.comment) &&
             (void *)r->_cpptype == x.cpptype;
-  ok = ok && (int)r->_constructors.size() == x.nctor && (int)r->_methods.size() == x.nmeth;
-  for (int i = 0; i < VMAX; i++) {
-    if (ok && i < x.nctor && r->_constructors[i] != x.ctor[i]) ok = false;
-    if (ok && i < x.nmeth && r->_methods[i] != x.meth[i]) ok = false;
-  }
+  ok = ok && same(r->_constructors, x.nctor, x.ctor) && same(r->_methods, x.nmeth, x.meth) && same(r->_elements, x.nelem, x.elem) &&
+       same(r->_casts, x.ncast, x.cast) && same(r->_make_seqs, x.nseq, x.seq) && same(r->_nested_types, x.nnest, x.nest);
 #ifdef WITH_DERIV
   ok = ok && (int)r->_derivations.size() == x.nder;
   for (int i = 0; i < VMAX; i++)
@@ -133,5 +138,24 @@ extern "C" void harness_c13_merge_with() {
   ASSERT(is_a || is_b, "C13 merge_with: the result is wholesale one of the two definitions, never a mixture");
   if (a_fd && b_fd) ASSERT(b_gl ? is_b : is_a, "C13 merge_with: both fully defined - the other side wins iff it is global (documented tie rule)");
   ASSERT(has_def(o, b) && ((o->_flags & G) != 0) == b_gl, "C13 merge_with leaves its argument unchanged");
+  WITNESS();
+}
+
+// The alternate names (InterrogateComponent::_alt_names, part of the record in the database file format) belong to
+// the definition as well: when the other side's definition wins they have to come with it.
+extern "C" void harness_c13_merge_alt_names() {
+  __ll2c_global_ctors();
+  InterrogateType *t = new InterrogateType;        // forward declaration
+  InterrogateType *o = new InterrogateType;        // fully defined, carries one alternate name
+  o->_flags = 0x2000 | (nondet_bool() ? 1 : 0);
+  char c = nondet_char();
+  ASSUME(c != 0);
+  o->_alt_names.resize(1);
+  o->_alt_names[0].assign(1, c);
+  t->merge_with(*o);
+  ASSERT(t->is_fully_defined(), "C13 merge_with: result is fully defined iff either side was");
+  ASSERT(o->get_num_alt_names() == 1, "C13 merge_with leaves its argument unchanged");
+  ASSERT(t->get_num_alt_names() == 1 && t->get_alt_name(0).size() == 1 && t->get_alt_name(0)[0] == c,
+         "C13 merge_with: the winning definition's alternate names are carried over");
   WITNESS();
 }
